@@ -22,7 +22,7 @@ FRAGMENT = {
          'or one source per item (counters guide_runs, guide_runs_programme_boundary, live_checks = announcement clause evaluated, '
          'live_checks_other_class_renewed = evaluated while the other programme class changed during the confirmation, live_disturbances); non-trivial = the reference delivered >= 2 valid packets and >= 1 packet was '
          'interrupted and resumed; distinct = distinct event-log hash',
- 'fault_kinds': ['fault_checksum', 'fault_parity', 'fault_nostart', 'fault_midnul', 'fault_noterm', 'fault_restart', 'fault_parity_term'],
+ 'fault_kinds': ['fault_demux_reset', 'fault_checksum', 'fault_parity', 'fault_nostart', 'fault_midnul', 'fault_noterm', 'fault_restart', 'fault_parity_term'],
  'components': {'real': ['src/xds_demux.c', 'src/caption.c (xds_separator, xds_decoder)', 'src/vbi.c (vbi_decode, events)'],
                 'stub': ['field-2 multiplexer = seeded scheduler over source tasks', 'fault injector (parity/checksum/start/terminator/pad)']},
  'assumptions': ['reference reassembler written from the property statement (EIA-608 XDS framing rules)',
